@@ -30,7 +30,12 @@ ID = "C07"
 PROPS_FILE = "Props/C07.v"
 GEN_DEPS = ["GenGrammar", "GenUnits"]
 ALLOWED_AXIOMS: List[str] = []
-THEOREMS: Dict[str, str] = {}
+THEOREMS: Dict[str, str] = {
+    "C07_smoke": "example",
+    "C07_overflow_refuted": "refuted", "C07_308_digits_fine": "example",
+    "C07_position_wellformed": "full",
+    "C07_error_points_at_token": "full", "C07_src_error_points_at_token": "full", "C07_error_points_ex": "example",
+}
 TRUSTED = C06.TRUSTED[:4] + [
     "Model/Compiler.v + Model/CompilerInst.v (compile_ast over the generated unit table) as tied by C01/C05/C08",
     "Markdown: marko's own conversion is outside the model; the recipe sources handed to compile() are captured from the real "
@@ -357,7 +362,7 @@ def digit_cases(rng: random.Random, n: int) -> List[Tuple[str, List[str]]]:
 
 HAND: List[List[str]] = [[t] for t in C06.HAND if SIGMA not in t] + [
     ["x = 1 a\nx = 2 b"], ["x = 1 a", "x = 2 b"], ["x = 1 a", "fry(1/2 of x)", "50% of y"], ["1/2 of x"], ["a\n\n50% x\n"],
-    ["x, y = z\n'Y ' := w"], ["x = 1 kg a\nfry(1000 g x)"], ["x = 1 a\nfry(x), boil(x)"], ["\n\n\n a = b\n\n a = c"],
+    ["x, y = z\n'Y ' := w"], ["a = 1 x\nb, a = 2 y"], ["a = 1 x", "c, b , A = 2 y"], ["p = q\n  r,\tP  := s"], ["x = 1 kg a\nfry(1000 g x)"], ["x = 1 a\nfry(x), boil(x)"], ["\n\n\n a = b\n\n a = c"],
     ["a = b\r\na = c"], ["a = b\x0ba = c"], ["a = b\n\x85"], ["x = y\n" * 30], ["x = 9" + "0" * 305 + " kg foo\nfry(1 g x)"],
     ["x = " + "9" * 400 + "/7 foo\nfry(1 x)"], ["x = 1" + "0" * 400 + ".5 kg foo\nfry(1 g x)"], [], ["", ""], ["a", ""],
 ]
